@@ -12,6 +12,10 @@ re-extracted from the C sources on every check (see tools/gen_params.py).
   memswap_plan                   memswap's loops as a list of (tag, width) steps (see HashModel.step_indices)
   swap_shape_ok                  swap calls memswap with size(type) for two objects of one type
   copy_shape_ok                  copy = the type's Copy instance, else assign(alloc(type_of(self)), self)
+  string_hash_shape_ok           String_Hash is hash_data(s->val, strlen(s->val)); Type_Hash likewise over the name;
+                                 hash() dispatches to the instance or hash_data(self, size(type))
+  hash_instances_stateless       no `static` storage inside hash, hash_data or any *_Hash instance (the value is
+                                 hashed afresh at every call: nothing is remembered between calls)
 """
 import re
 
@@ -123,6 +127,25 @@ def generate(repo, emit, src, func_body):
     cp = norm(func_body(al, r'var\s+copy\s*\(\s*var\s+self\s*\)\s*\{'))
     emit('copy_shape_ok', 'Definition copy_shape_ok : bool := true.'
          if cp == '{structCopy*c=instance(self,Copy);if(candc->copy){returnc->copy(self);}returnassign(alloc(type_of(self)),self);}' else None)
+
+    # Hash instances keep no state between calls
+    st = src('src/String.c')
+    sh = norm(func_body(st, r'static\s+uint64_t\s+String_Hash\s*\([^)]*\)\s*\{'))
+    ty = src('src/Type.c')
+    th = norm(func_body(ty, r'static\s+uint64_t\s+Type_Hash\s*\([^)]*\)\s*\{'))
+    hh = norm(func_body(h, r'uint64_t\s+hash\s*\(\s*var\s+self\s*\)\s*\{'))
+    ok = (sh == '{structString*s=self;returnhash_data(s->val,strlen(s->val));}'
+          and th == '{constchar*name=Type_Builtin_Name(self);returnhash_data(name,strlen(name));}'
+          and hh == '{structHash*h=instance(self,Hash);if(handh->hash){returnh->hash(self);}returnhash_data(self,size(type_of(self)));}')
+    emit('string_hash_shape_ok', 'Definition string_hash_shape_ok : bool := true.' if ok else None)
+    bodies = [func_body(h, r'uint64_t\s+hash\s*\(\s*var\s+self\s*\)\s*\{'), b]
+    for f, fn in (('src/Num.c', 'Int_Hash'), ('src/Num.c', 'Float_Hash'), ('src/String.c', 'String_Hash'), ('src/Type.c', 'Type_Hash'),
+                  ('src/Array.c', 'Array_Hash'), ('src/List.c', 'List_Hash'), ('src/Tuple.c', 'Tuple_Hash'),
+                  ('src/Table.c', 'Table_Hash'), ('src/Tree.c', 'Tree_Hash')):
+        bodies.append(func_body(src(f), r'static\s+uint64_t\s+%s\s*\([^)]*\)\s*\{' % fn))
+    stateless = all(x is not None and not re.search(r'\bstatic\b', x) for x in bodies)
+    emit('hash_instances_stateless', 'Definition hash_instances_stateless : bool := true.   (* no static storage in hash, hash_data, *_Hash *)'
+         if stateless else None)
 
 
 SIZES = {'sizeof(uint64_t)': 8, 'sizeof(int64_t)': 8, 'sizeof(uint32_t)': 4, 'sizeof(int32_t)': 4,
